@@ -11,7 +11,10 @@ From UV Require Import Py.Val Py.Str Py.UrlLib Ural.Utils Ural.Normalize Proofs.
 Theorem C05_never_raises : forall e o u x, normalize_url e o u = Exc x -> x = OracleMiss.
 Proof. exact normalize_total. Qed.
 
-Theorem C05_unparseable_unchanged : forall e o u s, normalize_split e o u = Ok (NOriginal s) -> s = u.
+(* "returned unchanged": the answer is the argument itself -- after its inferred redirection has been followed when
+   infer_redirection is on (the redirection is a pre-step, C04) *)
+Theorem C05_unparseable_unchanged : forall e o u s, normalize_split e o u = Ok (NOriginal s) ->
+  (if infer_redirection_o o then InferRedirection.infer_redirection e u else Ok u) = Ok s.
 Proof. exact normalize_original. Qed.
 
 (* the query only loses items: every item of the normalized query is the unquoted (in quoted mode re-quoted)
